@@ -5,7 +5,7 @@ import XrsVerif.Proofs.ILProxTarget
   in-range indices, ends in an *explicitly given* state.  No model here; Proofs/ILProxPixel.lean relates the
   explicit states to `Prox.pixel`.
 -/
-namespace XrsVerif.IL
+namespace XrsVerif.IL.Px
 open XrsVerif
 variable {F : Type} [Fl F]
 set_option linter.unusedSectionVars false
@@ -193,4 +193,4 @@ theorem upd_exec :
 
 end blocks
 
-end XrsVerif.IL
+end XrsVerif.IL.Px
